@@ -138,6 +138,8 @@ class Gfa(Lines,GraphOperations,RGFA):
     else:
       lines = []
       for line in self.lines:
+        if line.record_type == "E" and line.is_internal():
+          continue # internal overlaps have no GFA1 counterpart
         converted = line.to_gfa1_s()
         if converted:
           lines.append(converted)
@@ -154,6 +156,8 @@ class Gfa(Lines,GraphOperations,RGFA):
     else:
       gfa1 = gfapy.Gfa(version="gfa1", vlevel=self.vlevel)
       for line in self.lines:
+        if line.record_type == "E" and line.is_internal():
+          continue # internal overlaps have no GFA1 counterpart
         gfa1.add_line(line.to_gfa1(raise_on_failure=False))
       return gfa1
 
